@@ -307,6 +307,45 @@ theorem C04_c_serialize_override_buffer_condition (m : Msg) (o : MObj) (capBytes
           rw [padEnd_isOob]
           exact (serField_safe true (8 * capBytes) tb f v (okCmp_storage f) (by omega)).notOob
 
+/-- When do the per-write checks alone protect the buffer?  Exactly when EVERY write goes through the bounds-checked
+    setter (the C++ serializer as it is; not the C serializer, see the `sBytes` example below): then the up-front capacity
+    check may be compiled out (`checkCap = false`, the `…_DISABLE_SERIALIZATION_BUFFER_CHECK_` switch of the override
+    option) and still no buffer size, zero included, and no object can make serialization leave the buffer or the object. -/
+theorem C04_serialize_all_writes_checked_any_buffer (checkCap cs : Bool) (m : Msg) (o : MObj) (capBytes : Nat)
+    (h : ∀ f ∈ m.fields, okCmp cs f = true ∧ allChecked f = true) (ht : m.tagOk = true) :
+    (ser checkCap cs m o capBytes).isOob = false := by
+  unfold ser
+  by_cases hc : (checkCap && decide (8 * capBytes < msgMax fieldMax m)) = true
+  · simp [hc, Out.isOob]
+  · simp only [hc, Bool.false_eq_true, ↓reduceIte]
+    cases m with
+    | struct fs =>
+      cases o with
+      | struct vs =>
+        rw [padEnd_isOob]
+        exact serFields_checked cs (8 * capBytes) fs vs 0 h
+      | union _ _ => rfl
+    | union tb tc fs =>
+      simp only [Msg.tagOk] at ht
+      subst ht
+      cases o with
+      | struct _ => rfl
+      | union tag vs =>
+        simp only
+        rcases write_true_cases (8 * capBytes) 0 tb with e | e
+        · rw [e]
+          simp only
+          cases hf : nth? fs tag with
+          | none => rfl
+          | some f =>
+            cases hv : nth? vs tag with
+            | none => rfl
+            | some v =>
+              simp only
+              rw [padEnd_isOob]
+              exact serField_checked cs (8 * capBytes) tb f v (h f (nth?_mem hf)).1 (h f (nth?_mem hf)).2
+        · rw [e]; rfl
+
 /-- Deserialization never writes outside the object, for every input (`rd` is any content of any buffer, size 0
     included — reads saturate) — provided the emitted length comparison protects the array that is really there:
     always in a default build, and under the override option when it compares with the real capacity. -/
@@ -344,6 +383,12 @@ example : ser false true sOv (.struct [.prim, .count 2, .prim]) 5 = .err .buffer
 example : ser false true sBytes (.struct [.prim, .count 2, .prim]) 3 = .oobBuffer 16 16 := by decide
 /-- the bound of `C04_c_serialize_override_buffer_condition` is tight: 4 bytes = 8 + 8 + 2·8 bits are enough -/
 example : ser false true sBytes (.struct [.prim, .count 2, .prim]) 5 = .ok 40 := by decide
+/-- all writes checked (C++), check compiled out, every buffer size 0..7 for a message that needs 5 bytes: documented error -/
+example : (List.range 5).all (fun cap => ser false false (.struct [.prim 8 true, .varr 8 8 6 6 true true, .prim 8 true])
+    (.struct [.prim, .count 2, .prim]) cap == .err .bufferTooSmall) = true := by decide
+/-- … one bulk-copied (unchecked) byte array is enough to lose that -/
+example : ser false false (.struct [.prim 8 true, .varr 8 8 6 6 true false, .prim 8 true]) (.struct [.prim, .count 2, .prim]) 3
+    = .oobBuffer 16 16 := by decide
 /-- default build, count far above the capacity, zero-sized buffer -/
 example : ser true false (.struct [.prim 8 false, .varr 8 8 6 6 false false]) (.struct [.prim, .count 99999]) 0 = .err .bufferTooSmall := by decide
 example : ser true false (.struct [.prim 8 false, .varr 8 8 6 6 false false]) (.struct [.prim, .count 99999]) 8 = .err .badArrayLength := by decide
